@@ -107,6 +107,7 @@ func rulesC03(c *Ctx) {
 	R.Rule("R8", "mint signs only behind overflow-checked OUT <= stored quote amount (at most the quoted amount)", 3)
 	R.Rule("R9", "the quote state survives storage: String() and StringToState of the mint-quote state are inverse tables (the state is persisted as text)", 1)
 	R.Rule("R10", "the PENDING marker precedes every other storage / Lightning call of the mint op", 2)
+	R.Rule("R14", "the Lightning adapters never report 'settled' / 'succeeded' by default (shared with C05.R3): no zero-value State reaches an answer returned with a nil error", 20)
 	R.Rule("R13", "the storage readers of a mint quote report what is stored: every column scanned into a local (the state kept as text, the NUT-20 key) is carried into the returned quote", 4)
 	R.Rule("R12", "the checked sum of the outputs is exact: AmountChecked tests the overflow flag of every single addition, OverflowAddUint64 answers 'ok' only when the sum did not wrap (shared with C02.R12)", 7)
 	R.Rule("R11", "the quote-state op asks the backend whenever the stored state is UNPAID (a payment that arrived while nobody was watching is noticed at the next poll)", 1)
@@ -233,6 +234,7 @@ func rulesC03(c *Ctx) {
 	c.ruleMintAmount("R8", mint)
 	c.ruleCheckedArithmetic("R12")
 	c.scannedLocalsReachResult("R13", "GetMintQuote", "GetMintQuoteByPaymentHash")
+	c.runAs("R3", "R14", func(cc *Ctx) { cc.c05Backends() })
 	c.c03MessageAgreement()
 	c.c03WriterCensus(mint, quoteOp, st)
 	c.c03Pairs(mint, quoteOp)
@@ -364,14 +366,43 @@ func (c *Ctx) c03WriterCensus(mint, quoteOp *ssa.Function, st map[string]string)
 	}
 	// functions launched with `go`
 	goTargets := map[*ssa.Function]bool{}
+	goSites := map[*ssa.Function][]*ssa.Go{}
 	for _, f := range c.P.Funcs {
 		for _, b := range f.Blocks {
 			for _, in := range b.Instrs {
 				if g, ok := in.(*ssa.Go); ok {
 					if callee := g.Call.StaticCallee(); callee != nil {
 						goTargets[callee] = true
+						goSites[callee] = append(goSites[callee], g)
 					}
 				}
+			}
+		}
+	}
+	// a background task that writes the quote state is started only by the operation that creates the quote (the
+	// quote is UNPAID by construction then): started from anywhere else - start-up "resume", a poll - it runs
+	// for quotes in any state and its unconditional PAID write re-opens issued ones
+	if quoteOp := c.V.Op("/v1/mint/quote/{method}"); quoteOp != nil {
+		inQuoteOp := map[*ssa.Function]bool{}
+		for _, g := range c.OpFuncs(quoteOp) {
+			inQuoteOp[g] = true
+		}
+		for callee, gs := range goSites {
+			writes := false
+			for _, g := range WithClosures(callee) {
+				for _, ci := range Calls(g) {
+					if c.V.DBRole(c.P.Describe(ci), roleSetMint) {
+						writes = true
+					}
+				}
+			}
+			if !writes {
+				continue
+			}
+			for _, g := range gs {
+				okG := inQuoteOp[g.Parent()]
+				R.Check("R5", c.P.FuncKey(EnclosingTop(g.Parent())), "state-writing background task started by the quote-creating operation", c.P.InstrPos(g), okG,
+					"the invoice watcher is started only where the quote is created (state UNPAID by construction)", "started in "+c.P.FuncKey(EnclosingTop(g.Parent())))
 			}
 		}
 	}
